@@ -823,7 +823,7 @@ func main() {
 		case big:
 			sh.n = r.Range(300, 1500)
 			if *tier == "thorough" {
-				sh.n = r.Range(1000, 4000)
+				sh.n = r.Range(1000, 9000)
 			}
 			sh.midSpan = r.Range(2, sh.n)
 			sh.alphabet = "abc"
@@ -850,7 +850,15 @@ func main() {
 		if big {
 			nreq = 8
 		}
-		jobs = append(jobs, job{r: r.Fork(), sh: sh, nreq: nreq, depth: 4, mode: rng.Pick(r, modes)})
+		mode := rng.Pick(r, modes)
+		if i == nCorpus+nBig-1 {
+			// more than consts.IDsPerBlock (4096) IDs in a sealed fraction: several ID blocks, so that the
+			// MinBlockIDs shortcuts of sealedIDsIndex.LessOrEqual take part
+			sh.n = r.Range(4200, 5000)
+			sh.midSpan = r.Range(50, sh.n)
+			mode = rng.Pick(r, []string{"sealed", "restarted"})
+		}
+		jobs = append(jobs, job{r: r.Fork(), sh: sh, nreq: nreq, depth: 4, mode: mode})
 	}
 	results := make([]searchResult, len(jobs))
 	var wg sync.WaitGroup
@@ -975,6 +983,8 @@ func sizeBucket(n int) string {
 		return "5-40"
 	case n <= 1500:
 		return "300-1500"
+	case n <= 4096:
+		return "1501-4096"
 	}
-	return ">1500"
+	return ">4096 (several sealed ID blocks)"
 }
